@@ -1,7 +1,7 @@
 import ArgoVerif.Model.RWLock
 /-
 Proofs.RWLock — the inductive invariant of Model.RWLock and its preservation by `call`.  Proofs.RWLock2 has ret / mutexLock / mutexUnlock /
-enq / sleep / wake, Proofs.RWLock3 has update.
+enq, Proofs.RWLock5 sleep / wake, Proofs.RWLock3 update, Proofs.RWLock4 deadlock freedom.
 -/
 namespace ArgoVerif.Model.RWLock
 open ArgoVerif
